@@ -23,12 +23,12 @@ CHECKS = {
 
 CHECKS['C05'] = {
     'level': 'proof',
-    'units': ['tables'],
+    'units': ['tables', 'dot'],
     'kani': [],
     'technique': 'contract-based deductive verification (Verus) of the real conversion tables against registry spec functions transcribed from the RFCs/IANA; Kani for derived ordering and text form',
-    'level_text': 'Complete over the finite domains: each From/TryFrom table of /repo is verified to equal a registry spec function transcribed independently from the RFCs (so a pair of numbers swapped consistently in both directions still fails), and the identity / one-to-one lemmas are proved over all u16 / u8 / usize numbers.',
-    'level_note': 'Trusted: Verus/Z3/vstd; the transcription in spec/registry.py is the reference (written from RFC 7252/7641/7959/7967/8132/8516/8613/8768 and the IANA content-format registry).',
-    'trusted': [T_VERUS, 'spec/registry.py is the independent transcription of the registries (hand written from the RFCs)', T_ARITH],
+    'level_text': 'Complete over the finite domains: each From/TryFrom table of /repo is verified to equal a registry spec function transcribed independently from the RFCs (so a pair of numbers swapped consistently in both directions still fails), and the identity / one-to-one lemmas are proved over all u16 / u8 / usize numbers. Unit dot: Display for MessageClass writes class, a dot and the two-digit detail of the code byte (bit arithmetic verified), Header::get_code returns that text, Header::set_code stores class*32+detail of a well-formed text without tripping its assertions; theorem: for every code byte the text is c.dd (four characters) and set_code of it stores the same code.',
+    'level_note': 'Trusted: Verus/Z3/vstd; the transcription in spec/registry.py is the reference (written from RFC 7252/7641/7959/7967/8132/8516/8613/8768 and the IANA content-format registry). Unit dot assumes std formatting and parsing: write! with {} and {:02} appends decimal(a), a dot, two-digit decimal(b); str::parse::<u8> accepts every string of decimal digits whose value fits; str::split; to_string() == the text Display::fmt writes.',
+    'trusted': [T_VERUS, 'spec/registry.py is the independent transcription of the registries (hand written from the RFCs)', T_ARITH, 'unit dot: std formatting (write! with {} and {:02} on u8), str::parse::<u8>, str::split(char), ToString via Display - assumed contracts over the spec functions dec / dec2 / dec_val / split_on'],
     'explanation': 'From<u16>/From<CoapOption>, TryFrom<usize>/From<ContentFormat>, ObserveOption pair, From<u8>/From<MessageClass>, Header::get_type/set_type verified against registry spec functions; one-to-one lemmas.',
 }
 
@@ -104,7 +104,7 @@ CHECKS['C06'] = {
 }
 CHECKS['C05']['kani'] = [_k('is_error_iff_byte_ge_0x80', 'all 256 code bytes through the real From<u8> and the derived PartialOrd: is_error() == (byte >= 0x80)')]
 CHECKS['C05']['trusted'].append(T_KANI)
-CHECKS['C05']['not_covered'] = ['dotted c.dd text form (Display / set_code / get_code): fmt machinery too expensive for CBMC (435 s without verdict, DESIGN.md Appendix B) and str parsing is outside Verus']
+CHECKS['C05']['not_covered'] = ['std number formatting and parsing themselves (assumed contracts in unit dot; the bounded Kani attempt on the fmt machinery gave no verdict in 435 s, DESIGN.md Appendix B)']
 
 T_CLOS = 'closure literals passed to Option/Result combinators carry spliced contracts (R18), bodies verbatim; assumed std specs: Result::map_or, String::into_bytes (opaque utf8_of), VecDeque::front'
 T_DEF = 'R27: #[derive(Default)] on Packet expanded to the impl rustc generates (each field Default::default())'
